@@ -12,7 +12,7 @@ RULE = ('cases = every tabulation target (11 potable targets + writePotentials x
         'dipole and quadrupole functions all occur), through (a) the Python API with counting/raising proxies around every callable and a '
         'recording sink, followed by a second write() on the same object, and (b) potable main() in-process with a formula that leaves its '
         'domain at row i of function j (every function x every row) + real subprocess runs; non-trivial = every k (each is a distinct crash point)')
-RULE += '; 14 exception classes incl. KeyboardInterrupt / SystemExit / AttributeError (also with every proxy as the only range of a multi-range form); evaluations that RETURN a complex number or None at k (a write that does not fail must emit a complete table); write-only, gzip, lzma, bz2 and forward-only (seekable() == False) text sinks; six-species 10^4-row tables failing late; potable formulas whose value becomes complex (negative base ** 1.5)'
+RULE += '; 14 exception classes incl. KeyboardInterrupt / SystemExit / AttributeError (also with every proxy as the only range of a multi-range form); evaluations that RETURN a complex number or None at k (a write that does not fail must emit a complete table); write-only, gzip, lzma, bz2 and forward-only (seekable() == False) text sinks; writeFuncFL with a pair term that turns attractive at row k (the square root inside the writer fails, nothing was injected); six-species 10^4-row tables failing late; potable formulas whose value becomes complex (negative base ** 1.5)'
 ASSUMPTIONS = [
     'a failing evaluation is modelled as an exception raised by the model callable (Python API) or by pymath.sqrt of a negative number inside a formula (potable)',
     'the sink is an in-memory file object (text or binary as open_fp would give) or the named OUTPUT_FILE',
@@ -348,6 +348,10 @@ def cases(tier):
         for kind in ('writeonly', 'gzip', 'forward-only', 'lzma', 'bz2'):
             for k in (range(0, N + 1) if kind == 'forward-only' else sorted(set([0, 1, 2, N // 3, N // 2, N - 1, N]))):
                 out.append(dict(route='api', target=tgt, k=k, n=4, N=N, sink=kind))
+    # failures that come from ordinary values, inside the writer: the funcfl effective-charge square root of an attractive pair term, from every row on
+    for n in (5, 9):
+        for k in range(0, n + 1):
+            out.append(dict(route='natural', target='proc:writeFuncFL', n=n, k=k))
     # tables of several MiB: failures late in the write (after megabytes of text have been produced)
     for tgt in BIG_TARGETS:
         for frac in ((0.999,) if tier == 'quick' else (0.5, 0.9, 0.999)):
@@ -466,6 +470,38 @@ def run_api_big(case):
     return viol
 
 
+def run_natural(case):
+    """failures that arise inside the writer from ordinary function VALUES (no exception injected): writeFuncFL takes the square root of
+    r*phi(r)/(27.2*0.529) - a pair term that is attractive from row k on makes it fail; the sink stays empty then"""
+    import math
+    import atsim.potentials as ap
+    from ..readers import eam as RE
+    n, k = case['n'], case['k']
+    cutoff, crho = 2.0, 6.0
+    dr, drho = cutoff / (n - 1), crho / (n - 1)
+    rk = k * dr
+    pair = ap.Potential('A', 'A', lambda r: (2.0 * math.exp(-r)) if r < rk - 1e-9 else -0.5 * math.exp(-r))
+    eam = [ap.EAMPotential('A', 1, 1.5, lambda rho: -math.sqrt(rho + 1.0), lambda r: 0.5 * math.exp(-0.7 * r), 2.5, 'fcc')]
+    viol = []
+    for sink_kind in ('stringio', 'forward-only'):
+        sink = io.StringIO() if sink_kind == 'stringio' else ForwardOnly()
+        try:
+            ap.writeFuncFL(n, drho, n, dr, eam, [pair], sink, title='t')
+            raised = None
+        except Exception as e:  # noqa
+            raised = e
+        data = sink.getvalue()
+        if raised is not None and data:
+            V(viol, 'partial-output:natural:funcfl', 'writeFuncFL with a pair term that turns attractive at row %d of %d raised %s and left %d characters in the %s sink: %r'
+              % (k, n, type(raised).__name__, len(data), sink_kind, data[-60:]))
+        elif raised is None:
+            try:
+                t = RE.read_funcfl(data)
+            except Exception as e2:  # noqa
+                V(viol, 'incomplete-output:natural:funcfl', 'writeFuncFL returned but the file is not a complete funcfl table: %s' % e2)
+    return viol
+
+
 def run_case(case):
-    viol = {'api': run_api, 'potable': run_potable, 'subprocess': run_subprocess, 'api-big': run_api_big}[case['route']](case)
+    viol = {'api': run_api, 'potable': run_potable, 'subprocess': run_subprocess, 'api-big': run_api_big, 'natural': run_natural}[case['route']](case)
     return dict(outcome='ok:%s:%s' % (case['route'], case['target']) if not viol else 'violation', nontrivial=True, evals=1, violations=viol)
